@@ -77,6 +77,8 @@ def obs_strs(ev, rid=0):
             main.append(f'topo {o[1]}')
         elif k == 'sleep':
             aux.append(f'sleep {int(o[1])}')
+        elif k == 'reused-instance':
+            main.append(f'REUSED-NODE-INSTANCE {o[1]}')
     for idx, st in ev.get('done', []):
         if st[0] == 'ok':
             aux.append(f'done {idx} ok')
